@@ -191,12 +191,14 @@ GroupFreeRel(e, t, u) ==
      ELSE e.alloc = 1 /\ e.ret = 0
 
 \* common part of "group" (explicit sets) and "group_obj" (sets copied from an object)
-GroupInsertRel(e, t, u, reqC, hasC, reqN, hasN) ==
+\* rc / rn: requested cpuset / nodeset as range lists (possibly infinite); hasC / hasN: given and non-empty
+Cut(r, S) == {x \in S : InR(r, x)}
+GroupInsertRel(e, t, u, rc, hasC, rn, hasN) ==
   IF t.filters[GROUP + 1] = FILTER_KEEP_NONE THEN e.obj = 0 /\ Unchanged(t, u)      \* alloc or insert refuses
   ELSE
   /\ e.alloc = 1
   /\ \/ \* refused: conflicting or empty sets; every observable attribute unchanged
-        /\ e.obj = 0 /\ e.errno \in {"EINVAL"} /\ Unchanged(t, u)
+        /\ e.obj = 0 /\ Unchanged(t, u)                 \* (errno is not documented for this case)
      \/ \* an existing object is returned: the Group added no hierarchy information
         /\ e.obj # 0 /\ e.same = 0 /\ e.obj \in GpSet(t) /\ e.obj \in GpSet(u)
         /\ WellFormed(u) /\ GpUserdataStable(t, u)
@@ -204,7 +206,7 @@ GroupInsertRel(e, t, u, reqC, hasC, reqN, hasN) ==
         /\ TopLevel(u) = TopLevel(t)
         /\ \A i \in Pos(t) : Sets(O(u, PosOf(u, O(t, i).gp))) = Sets(O(t, i))
                              /\ Place(u, PosOf(u, O(t, i).gp)) = Place(t, i)
-        /\ hasC => CS(O(u, PosOf(u, e.obj))) = reqC \cap CS(O(t, 1))
+        /\ hasC => CS(O(u, PosOf(u, e.obj))) = Cut(rc, CS(O(t, 1)))
      \/ \* a new Group is in the tree
         /\ e.obj # 0 /\ e.same = 1 /\ e.obj \notin GpSet(t)
         /\ WellFormed(u) /\ GpUserdataStable(t, u)
@@ -214,22 +216,22 @@ GroupInsertRel(e, t, u, reqC, hasC, reqN, hasN) ==
         /\ TopLevel(u) = TopLevel(t)
         /\ LET g == O(u, PosOf(u, e.obj)) IN
              /\ g.type = GROUP
-             /\ hasC => CS(g) = reqC \cap CS(O(t, 1))
+             /\ hasC => CS(g) = Cut(rc, CS(O(t, 1)))
              /\ g.attr.dont_merge = e.dont_merge
         \* survivors keep what they are and their sets
         /\ \A i \in Pos(t) : O(t, i).gp \in GpSet(u) =>
               LET v == O(u, PosOf(u, O(t, i).gp)) IN Intrinsic(v) = Intrinsic(O(t, i)) /\ Sets(v) = Sets(O(t, i))
 
 GroupRel(e, t, u) ==
-  IF (e.hascs = 0 /\ e.hasns = 0) \/ (RSet(e.cs) = {} /\ RSet(e.ns) = {})
+  IF (e.hascs = 0 /\ e.hasns = 0) \/ (e.cs = <<>> /\ e.ns = <<>>)
   THEN (t.filters[GROUP + 1] # FILTER_KEEP_NONE => e.alloc = 1) /\ e.obj = 0 /\ Unchanged(t, u)   \* no set initialised, or all empty
-  ELSE GroupInsertRel(e, t, u, RSet(e.cs), e.hascs = 1 /\ RSet(e.cs) # {}, RSet(e.ns), e.hasns = 1 /\ RSet(e.ns) # {})
+  ELSE GroupInsertRel(e, t, u, e.cs, e.hascs = 1 /\ e.cs # <<>>, e.ns, e.hasns = 1 /\ e.ns # <<>>)
 
 GroupObjRel(e, t, u) ==
   LET src == O(t, PosOf(t, e.src)) IN
   IF ~HasSets(src) \/ (CS(src) = {} /\ NS(src) = {})
   THEN e.obj = 0 /\ Unchanged(t, u)
-  ELSE GroupInsertRel(e, t, u, CS(src), CS(src) # {}, NS(src), NS(src) # {})
+  ELSE GroupInsertRel(e, t, u, src.cs, CS(src) # {}, src.ns, NS(src) # {})
 
 (* ------------------------------------------------------------------ *)
 (* hwloc_topology_allow                                                *)
@@ -239,22 +241,22 @@ AllowRel(e, t, u) ==
       ok == /\ Bit(t.flags, FLAG_INCLUDE_DISALLOWED)
             /\ e.flags \in {1, 4}                       \* LOCAL_RESTRICTIONS (2) needs this system; handled below
             /\ e.flags = 1 => e.hascs = 0 /\ e.hasns = 0
-            /\ e.flags = 4 => /\ (e.hascs = 1 => RSet(e.cs) \cap CS(root) # {})
-                              /\ (e.hasns = 1 => RSet(e.ns) \cap NS(root) # {})
+            /\ e.flags = 4 => /\ (e.hascs = 1 => Cut(e.cs, CS(root)) # {})
+                              /\ (e.hasns = 1 => Cut(e.ns, NS(root)) # {})
   IN
   IF e.flags = 2 /\ Bit(t.flags, FLAG_INCLUDE_DISALLOWED) /\ e.hascs = 0 /\ e.hasns = 0 /\ t.thissystem = 1
   THEN \* result depends on the operating system: only the frame and well-formedness
        /\ e.ret \in {0, -1}
-       /\ [u EXCEPT !.tacs = <<>>, !.tans = <<>>, !.check_ok = 1] = [t EXCEPT !.tacs = <<>>, !.tans = <<>>, !.check_ok = 1]
+       /\ [u EXCEPT !.tacs = <<>>, !.tans = <<>>, !.check_ok = 1, !.xd = <<>>] = [t EXCEPT !.tacs = <<>>, !.tans = <<>>, !.check_ok = 1, !.xd = <<>>]
        /\ WellFormed(u)
   ELSE IF ~ok THEN e.ret = -1 /\ e.errno = "EINVAL" /\ Unchanged(t, u)      \* EINVAL leaves the topology untouched
   ELSE /\ e.ret = 0
        \* it does not modify any object
-       /\ [u EXCEPT !.tacs = <<>>, !.tans = <<>>, !.check_ok = 1] = [t EXCEPT !.tacs = <<>>, !.tans = <<>>, !.check_ok = 1]
+       /\ [u EXCEPT !.tacs = <<>>, !.tans = <<>>, !.check_ok = 1, !.xd = <<>>] = [t EXCEPT !.tacs = <<>>, !.tans = <<>>, !.check_ok = 1, !.xd = <<>>]
        /\ WellFormed(u)
        /\ e.flags = 4 =>
-            /\ RSet(u.tacs) = (IF e.hascs = 1 THEN RSet(e.cs) \cap CS(root) ELSE RSet(t.tacs))
-            /\ RSet(u.tans) = (IF e.hasns = 1 THEN RSet(e.ns) \cap NS(root) ELSE RSet(t.tans))
+            /\ RSet(u.tacs) = (IF e.hascs = 1 THEN Cut(e.cs, CS(root)) ELSE RSet(t.tacs))
+            /\ RSet(u.tans) = (IF e.hasns = 1 THEN Cut(e.ns, NS(root)) ELSE RSet(t.tans))
        /\ e.flags = 1 => CS(root) \subseteq RSet(u.tacs) /\ NS(root) \subseteq RSet(u.tans)
 
 (* ------------------------------------------------------------------ *)
@@ -279,7 +281,27 @@ SetSubtypeRel(e, t, u) ==
 
 RefreshRel(e, t, u) == e.ret = 0 /\ Unchanged(t, u)
 
-ModifyingEvents == {"restrict", "insert_misc", "group", "group_obj", "group_free", "allow", "add_info", "set_subtype", "refresh"}
+(* ------------------------------------------------------------------ *)
+(* distances / memory attributes / CPU kinds seen from the object tree *)
+(* (their own stores are judged by C13, C14, C15): the tree does not   *)
+(* move, except for Groups added by a commit that asks for grouping    *)
+(* ------------------------------------------------------------------ *)
+GroupingRel(t, u) ==
+  /\ WellFormed(u) /\ GpUserdataStable(t, u)
+  /\ TopLevel(u) = TopLevel(t)
+  /\ GpSet(t) \subseteq GpSet(u)
+  /\ \A i \in Pos(u) : O(u, i).gp \notin GpSet(t) => O(u, i).type = GROUP
+  /\ \A i \in Pos(t) : LET v == O(u, PosOf(u, O(t, i).gp)) IN Intrinsic(v) = Intrinsic(O(t, i)) /\ Sets(v) = Sets(O(t, i))
+
+\* the XML export digest (xd) covers the stores, so it may move here; nothing else does
+StoreRel(e, t, u) ==
+  /\ e.ret \in {0, -1}
+  /\ IF e.e = "dist_add" /\ e.commit = 0 /\ (e.addflags % 4) # 0 /\ e.addflags < 4
+     THEN GroupingRel(t, u)
+     ELSE [u EXCEPT !.xd = <<>>] = [t EXCEPT !.xd = <<>>]
+
+ModifyingEvents == {"restrict", "insert_misc", "group", "group_obj", "group_free", "allow", "add_info", "set_subtype", "refresh",
+                    "dist_add", "dist_remove", "memattr", "cpukind"}
 
 \* t is the stored (tagged) projection before, u the logged one after
 ModifyRel(e, t, u, slot) ==
@@ -292,6 +314,7 @@ ModifyRel(e, t, u, slot) ==
     [] e.e = "add_info"    -> AddInfoRel(e, t, u)
     [] e.e = "set_subtype" -> SetSubtypeRel(e, t, u)
     [] e.e = "refresh"     -> RefreshRel(e, t, u)
+    [] e.e \in {"dist_add", "dist_remove", "memattr", "cpukind"} -> StoreRel(e, t, u)
 
 (* ------------------------------------------------------------------ *)
 (* hwloc_topology_dup (C12): the copy is observably identical,         *)
